@@ -24,6 +24,9 @@ CHECK_DEADLOCK FALSE
 """
 
 
+REPLAY = ("TraceHistory", TRACE_CFG % {"defmax": 100})
+
+
 def signature(events, at):
     ev = json.loads(events[at - 1]) if 0 < at <= len(events) else {}
     prev = json.loads(events[at - 2]) if at >= 2 else {}
